@@ -53,7 +53,8 @@ class TaskDesc:
         self.fork_time = None
 
 
-def walk(rng, td, start_frames, first_exit_addr, t, step, nrec, maxdepth, addrs, fork_addrs, p_fork, jitter, extra_exit):
+def walk(rng, td, start_frames, first_exit_addr, t, step, nrec, maxdepth, addrs, fork_addrs, p_fork, jitter, extra_exit,
+         p_entry=0.55):
     """random ENTRY/EXIT walk; `start_frames` inherited open frames (a forked child)."""
     stack = [None] * start_frames        # entries: index into td.recs or None (inherited)
     td.inherited = start_frames
@@ -73,7 +74,7 @@ def walk(rng, td, start_frames, first_exit_addr, t, step, nrec, maxdepth, addrs,
         elif d >= maxdepth:
             kind = "X"
         else:
-            kind = "E" if rng.random() < 0.55 else "X"
+            kind = "E" if rng.random() < p_entry else "X"
         leaf_next = False
         if kind == "E":
             a = rng.choice(fork_addrs) if (fork_addrs and rng.random() < p_fork) else rng.choice(addrs)
@@ -85,7 +86,7 @@ def walk(rng, td, start_frames, first_exit_addr, t, step, nrec, maxdepth, addrs,
             td.recs.append(("E", t, df, a))
             td.true_depth.append(d)
             td.match.append(None)
-            leaf_next = rng.random() < 0.45
+            leaf_next = rng.random() < (0.45 if p_entry < 0.7 else 0.15)
         elif kind == "X":
             top = stack.pop()
             a = td.recs[top][3] if top is not None else rng.choice(addrs)
@@ -115,6 +116,7 @@ def gen_case(rng, idx, tier):
     extra_exit = rng.random() < 0.08
     big = tier == "thorough" and rng.random() < 0.2
     maxdepth = rng.choice([1, 2, 3, 5, 8] + ([40] if big else []))
+    p_entry = 0.8 if rng.random() < 0.25 else 0.55
     syms = [(0x100 * (k + 1), 0x40, n) for k, n in enumerate(NAMES)]
     addr = {n: D.BASE + rel for rel, _, n in syms}
     normal = [addr[n] for n in NAMES if n not in FORKLIKE]
@@ -153,15 +155,15 @@ def gen_case(rng, idx, tier):
                 dt = rng.choice([0, 0, 1]) * (grid if ties else 1) if rng.random() < 0.4 else step()
                 t = rc[1] + dt
                 start = par.true_depth[i] + 1
-                walk(rng, td, start, rc[3], t, step, max(nrec, 1), max(maxdepth, start), normal, forks, 0.1, jitter, extra_exit)
+                walk(rng, td, start, rc[3], t, step, max(nrec, 1), max(maxdepth, start), normal, forks, 0.1, jitter, extra_exit, p_entry)
                 td.proper_fork = (i, rc)
             else:                             # a child whose parent's fork() is not in the data
                 start = rng.randint(0, 3)
                 walk(rng, td, start, rng.choice(forks) if (start and rng.random() < 0.8) else None, t, step, nrec,
-                     max(maxdepth, start), normal, forks, 0.1, jitter, extra_exit)
+                     max(maxdepth, start), normal, forks, 0.1, jitter, extra_exit, p_entry)
                 td.proper_fork = None
         else:
-            walk(rng, td, 0, None, t, step, nrec, maxdepth, normal, forks, 0.25 if k == 0 else 0.08, jitter, extra_exit)
+            walk(rng, td, 0, None, t, step, nrec, maxdepth, normal, forks, 0.25 if k == 0 else 0.08, jitter, extra_exit, p_entry)
             td.proper_fork = None
         tasks.append(td)
 
@@ -441,6 +443,22 @@ def monitors(case, res):
             if rc[0] == "E" and e["dur"] != "":
                 bad.append(("duration-exact", "an ENTRY line shows a duration"))
                 break
+    # (4b) the time fields: delta = since the task's previous line, elapsed = since the first record
+    for mode in ("nomerge", "fields"):
+        if mode not in res or not res[mode][0]:
+            continue
+        LL = res[mode][0]
+        alltimes = [rc[1] for td in ts for rc in td.recs[:1]]
+        first = min(alltimes) if alltimes else 0
+        prev = {}
+        for e in LL:
+            want_d = fmt_unit(e["time"] - prev[e["tid"]]).strip() if prev.get(e["tid"]) else ""
+            want_e = fmt_unit(e["time"] - first).strip()
+            prev[e["tid"]] = e["time"]
+            if e["delta"] != want_d or e["elapsed"] != want_e:
+                bad.append(("time-fields", "%s: line of task %d at time %d shows delta %r elapsed %r, expected %r %r" % (
+                    mode, e["tid"], e["time"], e["delta"], e["elapsed"], want_d, want_e)))
+                break
     # (5) folding is presentation only
     def strip(e, keys):
         return tuple(e.get(k) for k in keys)
@@ -506,13 +524,35 @@ def monitors(case, res):
 
 # ---------------------------------------------------------------- running
 def case_json(case):
-    ts = ordered(case)
     return {
-        "tasks_in_info_order": [{"tid": td.tid, "kind": td.kind, "ppid": td.parent if td.kind == "child" else None,
-                                 "records": ["%s:%d:%d:%s" % (typ, t, dep, hex(a)) for typ, t, dep, a in td.recs]} for td in ts],
-        "task_txt": task_txt(case).decode(), "symbols": [(hex(D.BASE + r), n) for r, _, n in case["syms"]],
-        "sel": case["sel"], "col_off": case["col_off"], "tid_extra": case["tid_extra"],
+        "tasks_in_creation_order": [{
+            "tid": td.tid, "kind": td.kind, "parent": td.parent,
+            "records": ["%s:%d:%d:%s" % (typ, t, dep, hex(a)) for typ, t, dep, a in td.recs],
+            "meta": {"true_depth": td.true_depth, "match": td.match, "wellformed": td.wellformed, "open": td.open,
+                     "inherited": td.inherited, "proper_fork": (list(td.proper_fork[1]) if td.proper_fork else None)},
+        } for td in case["tasks"]],
+        "info_tids_order": case["order"], "task_txt": task_txt(case).decode(),
+        "symbols": [[r, sz, n] for r, sz, n in case["syms"]], "forks": case["forks"],
+        "sel": case["sel"], "col_off": case["col_off"], "tid_extra": case["tid_extra"], "modes": case["modes"],
+        "flags": {k: case[k] for k in ("ties", "jitter", "extra_exit", "maxdepth")},
     }
+
+
+def case_from_json(j, idx=0):
+    tasks = []
+    for t in j["tasks_in_creation_order"]:
+        td = TaskDesc(t["tid"], t["kind"], t["parent"])
+        for w in t["records"]:
+            typ, tm, dep, a = w.split(":")
+            td.recs.append((typ, int(tm), int(dep), int(a, 16)))
+        m = t["meta"]
+        td.true_depth, td.match, td.wellformed, td.open, td.inherited = m["true_depth"], m["match"], m["wellformed"], m["open"], m["inherited"]
+        td.proper_fork = (None, tuple(m["proper_fork"])) if m["proper_fork"] else None
+        tasks.append(td)
+    case = {"idx": idx, "syms": [tuple(x) for x in j["symbols"]], "tasks": tasks, "order": j["info_tids_order"],
+            "forks": j["forks"], "sel": j["sel"], "col_off": j["col_off"], "tid_extra": j["tid_extra"], "modes": j["modes"]}
+    case.update(j["flags"])
+    return case
 
 
 def run_case_modes(uft, case, root):
@@ -534,8 +574,44 @@ def evaluate(ctx, cases, uft, root):
             mlines.append(model_line(case, mode))
             keys.append((case["idx"], mode))
     mout = C.run_model("C06", mlines)
-    mres = dict(zip(keys, mout))
-    return raw, mres, dict(zip(keys, mlines))
+    if len(mout) != len(mlines):
+        raise RuntimeError("uvmodel C06 returned %d lines for %d queries" % (len(mout), len(mlines)))
+    return raw, dict(zip(keys, mout)), dict(zip(keys, mlines))
+
+
+def assess(case, rr, mres):
+    """-> (res, mismatches, bad): parsed output per mode, model/impl differences, monitor failures"""
+    ts = ordered(case)
+    tids = [td.tid for td in ts]
+    name2addr = {n: D.BASE + r for r, _, n in case["syms"]}
+    res, mism, crashed = {}, [], []
+    for mode in case["modes"]:
+        rc, out, err = rr[mode]
+        wf = mode not in ("default", "column")
+        if rc != 0 or err.strip():
+            crashed.append((mode, rc, err[-300:]))
+            continue
+        lines, rem, probs = parse_output(out, wf, name2addr)
+        if probs:
+            crashed.append((mode, "parse", probs[:3]))
+        res[mode] = (lines, rem)
+        ci = canon_impl(lines, rem, wf)
+        cm = canon_model(mres[(case["idx"], mode)], tids, wf)
+        if ci != cm:
+            k = next((i for i, (a, b) in enumerate(zip(ci[0], cm[0])) if a != b), min(len(ci[0]), len(cm[0])))
+            mism.append({"mode": mode, "args": mode_args(case, mode), "first_difference_at_line": k,
+                         "impl": [list(x) for x in ci[0][k:k + 3]], "model": [list(x) for x in cm[0][k:k + 3]],
+                         "impl_remaining": ci[1], "model_remaining": cm[1]})
+    if crashed:
+        bad = [("output", "uftrace replay failed or printed something unparsable: %r" % (crashed[:2],))]
+    else:
+        bad = monitors(case, res)
+    return res, mism, bad
+
+
+def closed_sel(case):
+    ts = ordered(case)
+    return all(parent_index(case, ts[i]) is None or parent_index(case, ts[i]) in case["sel"] for i in case["sel"])
 
 
 def run(ctx):
@@ -547,89 +623,69 @@ def run(ctx):
         C.violation(ctx, "build", {"kind": "harness-build-failed", "log": log[-3000:]}, True)
         return C.finish(ctx)
     rng = ctx.rng
-    ncase = 150 if ctx.tier == "quick" else 4000
-    cases = [gen_case(rng, i, ctx.tier) for i in range(ncase)]
+    ncase = 400 if ctx.tier == "quick" else 40000
     root = os.path.join(ctx.scratch, "dirs")
     os.makedirs(root, exist_ok=True)
-    raw, mres, mlines = evaluate(ctx, cases, uft, root)
 
     evaluations = disagreements = monitor_fail = replays = 0
     distinct = set()
     dist = {"tasks": {}, "with_ties": 0, "cross_task_ties": 0, "with_fork_child": 0, "proper_fork_child": 0, "with_threads": 0,
             "with_open_calls": 0, "depth_field_jitter": 0, "unbalanced_exit": 0, "max_depth": 0, "records": 0,
-            "folded_leaves": 0, "unfolded_leaf_because_other_task_between": 0, "tid_selection_not_parent_closed": 0}
+            "folded_leaves": 0, "unfolded_leaf_because_other_task_between": 0, "tid_selection_not_parent_closed": 0,
+            "child_first_index_lower_than_parent": 0}
     samples = []
-    for case, rr in zip(cases, raw):
-        ts = ordered(case)
-        tids = [td.tid for td in ts]
-        name2addr = {n: D.BASE + r for r, _, n in case["syms"]}
-        h = hashlib.sha1(json.dumps([[td.tid, td.kind, td.parent, td.recs] for td in ts]).encode()).hexdigest()
-        nontrivial = sum(len(td.recs) for td in ts) >= 2
-        res, mism, crashed = {}, [], []
-        for mode in case["modes"]:
-            evaluations += 1
-            rc, out, err = rr[mode]
-            wf = mode not in ("default", "column")
-            if rc != 0 or err.strip():
-                crashed.append((mode, rc, err[-300:]))
-                continue
-            lines, rem, probs = parse_output(out, wf, name2addr)
-            if probs:
-                crashed.append((mode, "parse", probs[:3]))
-            res[mode] = (lines, rem)
-            ci = canon_impl(lines, rem, wf)
-            cm = canon_model(mres[(case["idx"], mode)], tids, wf)
-            if ci != cm:
-                k = next((i for i, (a, b) in enumerate(zip(ci[0], cm[0])) if a != b), min(len(ci[0]), len(cm[0])))
-                mism.append({"mode": mode, "args": mode_args(case, mode), "first_difference_at_line": k,
-                             "impl": [list(x) for x in ci[0][k:k + 3]], "model": [list(x) for x in cm[0][k:k + 3]],
-                             "impl_remaining": ci[1], "model_remaining": cm[1]})
-        bad = monitors(case, res) if not crashed else [("output", "uftrace replay failed or printed something unparsable: %r" % (crashed[:2],))]
-        # statistics
-        if nontrivial:
-            distinct.add(h)
-        dist["tasks"][len(ts)] = dist["tasks"].get(len(ts), 0) + 1
-        dist["with_ties"] += case["ties"]
-        alltimes = [(t, i) for i, td in enumerate(ts) for _, t, _, _ in td.recs]
-        seen = {}
-        cross = False
-        for t, i in alltimes:
-            if t in seen and seen[t] != i:
-                cross = True
-            seen.setdefault(t, i)
-        dist["cross_task_ties"] += cross
-        dist["with_fork_child"] += any(td.kind == "child" for td in ts)
-        dist["proper_fork_child"] += any(td.kind == "child" and td.proper_fork for td in ts)
-        dist["with_threads"] += any(td.kind == "thread" for td in ts)
-        dist["with_open_calls"] += any(td.open for td in ts)
-        dist["depth_field_jitter"] += case["jitter"]
-        dist["unbalanced_exit"] += case["extra_exit"]
-        dist["max_depth"] = max([dist["max_depth"]] + [d for td in ts for d in td.true_depth if d is not None])
-        dist["records"] += sum(len(td.recs) for td in ts)
-        if "fields" in res and "nomerge" in res:
-            nl = sum(1 for e in res["fields"][0] if e["kind"] == "l")
-            dist["folded_leaves"] += nl
-            L = res["nomerge"][0]
-            adj = 0
-            for td in ts:
-                mine = [e for e in L if e["tid"] == td.tid]
-                adj += sum(1 for a, b, ra, rb in zip(mine, mine[1:], td.recs, td.recs[1:]) if a["kind"] == "e" and b["kind"] == "x" and ra[2] == rb[2])
-            dist["unfolded_leaf_because_other_task_between"] += adj - nl
-        dist["tid_selection_not_parent_closed"] += not all(
-            parent_index(case, ts[i]) is None or parent_index(case, ts[i]) in case["sel"] for i in case["sel"])
-        if len(samples) < 3 and case["idx"] % 41 == 7:
-            samples.append({"model_input": mlines[(case["idx"], "default")][:400], "impl_default_output": rr["default"][1][:600]})
-        disagreements += bool(mism)
-        monitor_fail += bool(bad)
-        if (bad or mism) and replays < 3:
-            replays += 1
-            C.violation(ctx, "case%d" % case["idx"], {
-                "kind": "property-violated-on-implementation" if bad else "model-code-disagreement",
-                "what": [list(b) for b in bad], "case": case_json(case),
-                "model_vs_impl": mism[:3],
-                "model_inputs": {m: mlines[(case["idx"], m)] for m in case["modes"]},
-                "theorem": "c06_* (Props/C06.lean) / correspondence Merge+Replay",
-            }, no_failing_input=not bad)
+    done = 0
+    while done < ncase:
+        chunk = [gen_case(rng, done + i, ctx.tier) for i in range(min(1000, ncase - done))]
+        done += len(chunk)
+        raw, mres, mlines = evaluate(ctx, chunk, uft, root)
+        for case, rr in zip(chunk, raw):
+            ts = ordered(case)
+            evaluations += len(case["modes"])
+            res, mism, bad = assess(case, rr, mres)
+            # statistics
+            if sum(len(td.recs) for td in ts) >= 2:
+                distinct.add(hashlib.sha1(json.dumps([[td.tid, td.kind, td.parent, td.recs] for td in ts]).encode()).hexdigest())
+            dist["tasks"][len(ts)] = dist["tasks"].get(len(ts), 0) + 1
+            dist["with_ties"] += case["ties"]
+            seen, cross = {}, False
+            for i, td in enumerate(ts):
+                for _, t, _, _ in td.recs:
+                    if seen.setdefault(t, i) != i:
+                        cross = True
+            dist["cross_task_ties"] += cross
+            dist["with_fork_child"] += any(td.kind == "child" for td in ts)
+            dist["proper_fork_child"] += any(td.kind == "child" and td.proper_fork for td in ts)
+            dist["child_first_index_lower_than_parent"] += any(
+                td.kind == "child" and parent_index(case, td) is not None and parent_index(case, td) > i for i, td in enumerate(ts))
+            dist["with_threads"] += any(td.kind == "thread" for td in ts)
+            dist["with_open_calls"] += any(td.open for td in ts)
+            dist["depth_field_jitter"] += case["jitter"]
+            dist["unbalanced_exit"] += case["extra_exit"]
+            dist["max_depth"] = max([dist["max_depth"]] + [d for td in ts for d in td.true_depth if d is not None])
+            dist["records"] += sum(len(td.recs) for td in ts)
+            if "fields" in res and "nomerge" in res:
+                nl = sum(1 for e in res["fields"][0] if e["kind"] == "l")
+                dist["folded_leaves"] += nl
+                L = res["nomerge"][0]
+                adj = 0
+                for td in ts:
+                    adj += sum(1 for ra, rb in zip(td.recs, td.recs[1:]) if ra[0] == "E" and rb[0] == "X" and ra[2] == rb[2])
+                dist["unfolded_leaf_because_other_task_between"] += adj - nl
+            dist["tid_selection_not_parent_closed"] += not closed_sel(case)
+            if len(samples) < 3 and case["idx"] % 41 == 7:
+                samples.append({"model_input": mlines[(case["idx"], "default")][:400], "impl_default_output": rr["default"][1][:600]})
+            disagreements += bool(mism)
+            monitor_fail += bool(bad)
+            if (bad or mism) and replays < 3:
+                replays += 1
+                C.violation(ctx, "case%d" % case["idx"], {
+                    "kind": "property-violated-on-implementation" if bad else "model-code-disagreement",
+                    "what": [list(b) for b in bad], "case": case_json(case),
+                    "model_vs_impl": mism[:3],
+                    "model_inputs": {m: mlines[(case["idx"], m)] for m in case["modes"]},
+                    "theorem": "c06_* (Props/C06.lean) / correspondence Merge+Replay",
+                }, no_failing_input=not bad)
     if proof_broken:
         C.violation(ctx, "proof", {"kind": "proof-obligation-broken", "problems": problems,
                                    "searched": "%d (directory, mode) runs; monitor failures %d" % (evaluations, monitor_fail)},
@@ -644,17 +700,42 @@ def run(ctx):
                 "default, --no-merge -f F, -f F, --tid <1-2 tasks> -f F [--no-merge], --column-view [--column-offset=N] with "
                 "F = %s. distinct = distinct record sets with >= 2 records" % FIELDS,
         "input_distribution": dist, "model_code_disagreements": disagreements, "monitor_failures_on_impl": monitor_fail,
-        "directories": len(cases), "exhaustive": False, "samples": samples,
+        "directories": ncase, "exhaustive": False, "samples": samples,
     })
     ctx.assumptions += [
         "user ENTRY/EXIT records only (no kernel, perf, event, LOST records), no filter/trigger/time-range options",
         "per-task timestamps non-decreasing; nesting depth below max_stack (1024)",
         "durations/deltas are compared as the text print_time_unit() produces (exact ns below 1 ms, 3 digits of the unit above)",
     ]
+    ctx.notes += [
+        "--tid <forked child> without its parent task: the child's inherited display depth is lost (the parent is not replayed), "
+        "so its first lines are indented differently from the full output; order, names, durations and times are unchanged. "
+        "Modelled as is (theorem c06_tid_is_projection has the closure hypothesis; c06_tid_orphan_child_witness shows the difference); "
+        "the --tid monitor compares indentation only for parent-closed selections.",
+    ]
     return C.finish(ctx)
 
 
 def replay(ctx, path):
+    """re-run the stored case against the current tree and the model"""
     r = json.load(open(path))
-    print(json.dumps(r, indent=1))
-    return 0
+    if "case" not in r:
+        print(json.dumps(r, indent=1))
+        return 0
+    case = case_from_json(r["case"])
+    okm, log = ctx.make()
+    uft = os.path.join(ctx.src, "uftrace")
+    if not okm:
+        print("build failed\n" + log[-2000:])
+        return 2
+    root = os.path.join(ctx.scratch, "dirs")
+    os.makedirs(root, exist_ok=True)
+    raw, mres, mlines = evaluate(ctx, [case], uft, root)
+    res, mism, bad = assess(case, raw[0], mres)
+    for mode in case["modes"]:
+        print("== uftrace replay %s  (rc=%s)" % (" ".join(mode_args(case, mode)), raw[0][mode][0]))
+        print(raw[0][mode][1])
+        print("   model: " + mres[(case["idx"], mode)])
+    print("monitor failures:", json.dumps([list(b) for b in bad], indent=1))
+    print("model/implementation differences:", json.dumps(mism, indent=1))
+    return 1 if (bad or mism) else 0
